@@ -34,7 +34,7 @@ def run(chk, tier):
     n = 160 if tier == "quick" else 2500
     routes = [("interp-Q1", "interp", None, ()), ("c-Q1", "c", None, ())]
     # 1. fixed programs: regressions of repaired defects and the recorded open findings
-    fixed = fixedprogs.fixed_regressions() + fixedprogs.findings_c01()
+    fixed = fixedprogs.fixed_regressions(with_assert=True) + fixedprogs.findings_c01()
     fam0 = progcheck.Family(chk, fixed, "fixed", cfg="AldorSemAny", workers=4, timeout=300)
     progcheck.replay(chk, b, fam0, routes, wd)
     # 2. the exhaustively enumerated small family: TLC enumerates the expression set (SmallProgs.tla), every member is
